@@ -530,6 +530,24 @@ func uxfRun(cd *uxChainData, cfg *uxfCfg, id int) (out uxPathOut) {
 			e.lmu.Unlock()
 		}
 	}()
+	// now and then a cv.Signal out of the blue, as the late Signal of an
+	// Enqueue that has already returned would be (rare with real timing)
+	if r.Intn(3) == 0 {
+		rs := rand.New(rand.NewSource(r.Int63()))
+		wg.Add(1)
+		go func() {
+			defer wg.Done()
+			for n := rs.Intn(10); n > 0; n-- {
+				uxfJitter(rs)
+			}
+			e.lmu.Lock()
+			ok := len(e.reqs) > 0
+			e.lmu.Unlock()
+			if ok {
+				e.s.cv.Signal()
+			}
+		}()
+	}
 	wg.Wait()
 	// quiescence: the last thing that happened is the batch manager parking
 	if !e.waitParked(cfg.MaxGates) {
